@@ -182,7 +182,7 @@ class TextWriter:
         if datadef.mode:
             ref, offset = datadef.mode
             if not ref.is_zero:
-                self.emit(str(ref))
+                self.emit("(", "memory", str(ref), ")")
             # self.emit(' ')
             # self.gen_id(datadef.id)
             offset = " ".join(i.to_string() for i in offset)
